@@ -461,3 +461,55 @@ pub fn start_watchdog(property: String, limit_s: u64) {
         }
     });
 }
+
+/// Run a child process in its own process group with its standard input fed from `input`, under a
+/// generous wall-clock watchdog (expiry = `Err`, to be counted as inconclusive, never a verdict);
+/// whatever is left of the process group is killed afterwards.
+pub fn run_child(mut cmd: std::process::Command, input: Option<Vec<u8>>, limit_secs: u64) -> Result<std::process::Output, String> {
+    use std::os::unix::process::CommandExt;
+    use std::process::Stdio;
+    cmd.process_group(0);
+    cmd.stdin(if input.is_some() { Stdio::piped() } else { Stdio::null() }).stdout(Stdio::piped()).stderr(Stdio::piped());
+    let mut child = cmd.spawn().map_err(|e| e.to_string())?;
+    let si = child.stdin.take();
+    let t0 = std::thread::spawn(move || {
+        if let (Some(mut si), Some(data)) = (si, input) {
+            let _ = std::io::Write::write_all(&mut si, &data);
+        }
+    });
+    let mut so = child.stdout.take().unwrap();
+    let mut se = child.stderr.take().unwrap();
+    let t1 = std::thread::spawn(move || {
+        let mut v = Vec::new();
+        std::io::Read::read_to_end(&mut so, &mut v).ok();
+        v
+    });
+    let t2 = std::thread::spawn(move || {
+        let mut v = Vec::new();
+        std::io::Read::read_to_end(&mut se, &mut v).ok();
+        v
+    });
+    let start = std::time::Instant::now();
+    let status = loop {
+        match child.try_wait() {
+            Ok(Some(s)) => break Ok(s),
+            Ok(None) => {
+                if start.elapsed().as_secs() > limit_secs {
+                    break Err(format!("still running after {limit_secs} s (wall-clock watchdog)"));
+                }
+                std::thread::sleep(std::time::Duration::from_millis(2));
+            }
+            Err(e) => break Err(e.to_string()),
+        }
+    };
+    // SAFETY: plain kill(2) on the child's own process group
+    let _ = unsafe { libc::kill(-(child.id() as i32), libc::SIGKILL) };
+    if status.is_err() {
+        let _ = child.kill();
+        let _ = child.wait();
+    }
+    let _ = t0.join();
+    let stdout = t1.join().unwrap_or_default();
+    let stderr = t2.join().unwrap_or_default();
+    status.map(|status| std::process::Output { status, stdout, stderr })
+}
